@@ -11,6 +11,7 @@ wt = '/tmp/seedwt-' + tag
 bd = '/tmp/seedbuild-' + tag
 subprocess.run(['git', '-C', '/repo', 'worktree', 'remove', '--force', wt], stderr=subprocess.DEVNULL)
 subprocess.check_call(['git', '-C', '/repo', 'worktree', 'add', '-q', wt, 'HEAD'])
+print('=== %s : %s' % (os.path.basename(os.path.dirname(patch)), ' '.join(ids)), flush=True)
 try:
     subprocess.check_call(['git', '-C', wt, 'apply', patch])
     env = dict(os.environ, VERIF_REPO=wt, VERIF_BUILD=bd)
